@@ -270,6 +270,32 @@ for idx in range(N_CTOR + N_DECO + N_INV + 30, N_CTOR + N_DECO + N_INV + 44):
         errat = 1 + R.randrange(len(rgo))
     entries.append(dict(idx=idx, p=pir, r=rir, err=True, errat=errat, err2=True, pgo=pgo, rgo=rgo, invoke=False, kind=kind))
 
+# Appended later still (indices >= 274): constructors that feed SEVERAL values
+# of one type into one group (two or three fields of one result object).
+for idx in range(N_CTOR + N_DECO + N_INV + 44, N_CTOR + N_DECO + N_INV + 54):
+    kind = "ctor"
+    t = R.choice(TYPES)
+    nmem = R.choice([2, 2, 3])
+    pl = [l for l in mk_params(R.choice([0, 1, 1, 2])) if not (l["t"] == t and l.get("group") == "g")]
+    pk = keyset_params(pl)
+    obj = [dict(t=t, group="g") for _ in range(nmem)]
+    extra = None
+    if R.random() < 0.5:
+        et = R.choice([x for x in TYPES if (x, "", "") not in pk])
+        extra = dict(t=et)
+    sname = f"bankOut{idx}"
+    fields = list(obj)
+    if extra is not None and R.random() < 0.5:
+        fields.insert(R.randrange(len(fields) + 1), extra)
+        extra = None
+    structs.append((sname, "Out", [rfield(l) for l in fields]))
+    rir, rgo = [dict(isobj=True, obj=[rleaf(l) for l in fields])], [sname]
+    if extra is not None:
+        pos = R.randrange(2)
+        rir.insert(pos, rleaf(extra)); rgo.insert(pos, GO[extra["t"]])
+    pir, pgo = encode_params(idx, pl)
+    entries.append(dict(idx=idx, p=pir, r=rir, err=R.random() < 0.8, pgo=pgo, rgo=rgo, invoke=False, kind=kind))
+
 out = []
 out.append("// Code generated by /verif/tools/genbank.py; DO NOT EDIT.\n")
 out.append("package harness\n")
